@@ -162,6 +162,30 @@ Definition step_op (op : list tok) : list tok :=
         end
         ++ [TS "L"] ++ flat_map (fun b => match b with BChunk d => [TN (Z.of_nat (List.length d))] | BEnd => [TS "E"] end) final
       | _ => [TS "badop"] end
+    else if name =? "h2convt2" then
+      (* h2convt2: as h2convt, the response arriving in two reads, the first one ending inside the trailer section:
+         the first pass sees the whole body and no end (no closing frame can go out), the others the rest *)
+      match args with
+      | TN mx :: _ :: TN nf :: rest =>
+        let ws := zs_between rest "W" in
+        let cs := map (fun z => repeat 0%N (Z.to_nat z)) (zs_between rest "C") in
+        let total := fold_left (fun a c => Nat.add a (List.length c)) cs O in
+        let fuel := S (Nat.add total (Nat.add (List.length cs) 3)) in
+        match ws with
+        | [] => [TS "L"]
+        | w0 :: ws' =>
+          let '(fs0, bl0, w0') := h2_prepare fuel w0 (Z.to_nat mx) (map BChunk cs) in
+          let '(rs, final) := h2_rounds fuel (Z.to_nat mx) ws' (bl0 ++ [BEnd]) in
+          let frame_toks (fs : list dframe) :=
+              flat_map (fun o => match o with
+                                 | OTrailers _ => [TS "T"]
+                                 | OData p e => if e then [TS "E"] else [TN (Z.of_nat (List.length p))]
+                                 end) (h2_out_with_trailers (Z.to_nat nf) fs) in
+          [TS "R"; TN w0'; TS "H"] ++ frame_toks fs0
+          ++ flat_map (fun r : list dframe * Z => [TS "R"; TN (snd r)] ++ frame_toks (fst r)) rs
+          ++ [TS "L"] ++ flat_map (fun b => match b with BChunk d => [TN (Z.of_nat (List.length d))] | BEnd => [TS "E"] end) final
+        end
+      | _ => [TS "badop"] end
     else [TS "badop"]
   | _ => [TS "badop"]
   end.
